@@ -77,7 +77,8 @@ func fragmentsFinished(fctx fragmentationContext) bool {
 
 func parseFragment(data []byte) (resultData []byte, ix uint16, length uint16, ok bool) {
 	parts := bytes.Split(data, fragmentSeparator)
-	if len(parts) != 4 {
+	if len(parts) != 4 || len(parts[3]) != 0 {
+		// "k,n,piece," - nothing may follow the comma that ends the piece
 		return nil, 0, 0, false
 	}
 	var e1, e2 error
